@@ -391,6 +391,12 @@ func c13Cases(thorough bool) []c13Case {
 			cs = append(cs, c13Case{Name: "L7 overwrite, subset of targets pre-existing", TMS: rd, IDs: ids, Page: 2, Overwrite: true, Existing: true, ExistingIDs: pre, Path: "out.gpkg", Src: s2b})
 		}
 	}
+	// L10: id lists with a repeated id x overwrite scenario (the id occurs twice in the loop that prepares the targets)
+	for _, ids := range [][]int{{8, 8}, {5, 8, 5}, {8, 5, 5}} {
+		for _, scen := range []struct{ ov, ex bool }{{false, false}, {true, false}, {true, true}} {
+			cs = append(cs, c13Case{Name: "L10 repeated id x overwrite scenario", TMS: rd, IDs: ids, Page: 2, Overwrite: scen.ov, Existing: scen.ex, Path: "out.gpkg", Src: s2b})
+		}
+	}
 	// L8: table order: every ordering of every subset of >= 2 of the four tables (polygon, multipolygon, point, line);
 	// plus sources in which one of the tables has no rows
 	{
@@ -543,6 +549,6 @@ func runC13() {
 		"states": tot.States, "transitions": tot.States, "traces_validated_against_impl": 0, "samples": tot.Samples,
 		"evaluations": tot.States, "distinct_nontrivial": tot.Nontrivial, "exhaustive": tot.Exhaustive && int(tot.States) == len(cases),
 		"runs_per_sub_lattice": tot.PerLattice,
-		"rule":                 "state = one invocation of the real texel binary; the lattice is the union of fully enumerated sub-lattices: L1 id lists (single, descending, three, duplicate) x keep x reverse x page size {1,2,default}; L2 all 8 flag combinations (command line and environment) on a source with an outside-grid feature and on an in-grid source; L3 5 target path shapes x {fresh, overwrite, pre-existing + overwrite} x ids; L7 overwrite with every non-empty proper subset of the requested targets pre-existing x three id lists; L9 all 8 flag combinations with the off options given explicitly as false (command line and environment); L8 every ordering of every subset of >= 2 of the four table kinds, and sources with one table without rows; L4 every sequence of <= 2 polygon kinds x <= 1 (thorough 2) multipolygon kinds with line table; L6 WebMercatorQuad and WorldMercatorWGS84Quad x two id lists x keep/reverse; thorough L5 page sizes x four tables; each run is compared file by file, table by table, row by row with the reference; non-trivial = sources with at least one (multi)polygon",
+		"rule":                 "state = one invocation of the real texel binary; the lattice is the union of fully enumerated sub-lattices: L1 id lists (single, descending, three, duplicate) x keep x reverse x page size {1,2,default}; L2 all 8 flag combinations (command line and environment) on a source with an outside-grid feature and on an in-grid source; L3 5 target path shapes x {fresh, overwrite, pre-existing + overwrite} x ids; L7 overwrite with every non-empty proper subset of the requested targets pre-existing x three id lists; L9 all 8 flag combinations with the off options given explicitly as false (command line and environment); L10 id lists with a repeated id x {fresh, overwrite, pre-existing + overwrite}; L8 every ordering of every subset of >= 2 of the four table kinds, and sources with one table without rows; L4 every sequence of <= 2 polygon kinds x <= 1 (thorough 2) multipolygon kinds with line table; L6 WebMercatorQuad and WorldMercatorWGS84Quad x two id lists x keep/reverse; thorough L5 page sizes x four tables; each run is compared file by file, table by table, row by row with the reference; non-trivial = sources with at least one (multi)polygon",
 	})
 }
